@@ -111,6 +111,35 @@ func c05Defects(base *specs.Spec) []c05Defect {
 			}
 		}
 	}
+	// --- two features of different versions together, declared one release below the newer one
+	{
+		type feat struct {
+			name string
+			ver  int
+			set  func(s *specs.Spec)
+		}
+		feats := []feat{
+			{"mount type", 1, func(s *specs.Spec) { s.ContainerEdits.Mounts[0].Type = "tmpfs" }},
+			{"hostPath", 2, func(s *specs.Spec) { s.Devices[1].ContainerEdits.DeviceNodes[0].HostPath = "/dev/null" }},
+			{"device name starting with a digit", 2, func(s *specs.Spec) { s.Devices[2].Name = "0dev" }},
+			{"annotations", 3, func(s *specs.Spec) { s.Devices[0].Annotations = map[string]string{"k": "v"} }},
+			{"additionalGids", 4, func(s *specs.Spec) { s.ContainerEdits.AdditionalGIDs = []uint32{5} }},
+		}
+		for i, lo := range feats {
+			for _, hi := range feats[i+1:] {
+				if hi.ver == lo.ver {
+					continue
+				}
+				lo, hi := lo, hi
+				mem("version-older-than-feature", "spec", "-", fmt.Sprintf("%s and %s together with %s", lo.name, hi.name, releasedVersions[hi.ver-1]), func(s *specs.Spec) {
+					strip(s)
+					lo.set(s)
+					hi.set(s)
+					s.Version = releasedVersions[hi.ver-1]
+				})
+			}
+		}
+	}
 	// --- versions that never were released, or are older than the oldest supported one,
 	// declared by a document that uses no version-gated feature at all
 	for _, v := range []string{"0.1.0", "0.2.0", "0.0.0", "0.2.9", "0.3", "0.3.1", "v0.2.0"} {
